@@ -2,6 +2,7 @@ package main
 
 import (
 	"bytes"
+	"encoding/json"
 	"fmt"
 	"io"
 	"os"
@@ -112,6 +113,9 @@ var (
 )
 
 func setPhaseShare(cumulative float64) {
+	if os.Getenv("C38_PHASES") != "" {
+		cumulative = 1.0 // explicit phase selection: the selected phases share the whole budget
+	}
 	phaseDeadline = runStart.Add(time.Duration(float64(r.Budget) * cumulative))
 }
 
@@ -203,7 +207,7 @@ func fileSizes(f [][]byte) []int {
 }
 
 // checkIntact: an intact log must read back exactly.
-func checkIntact(tag, label string, rd reading, w []item) bool {
+func checkIntact(tag, label string, rd reading, w []item, spec map[string]any) bool {
 	ok := rd.eof && !rd.runaway && len(rd.obs) == len(w)
 	if ok {
 		for i := range w {
@@ -220,7 +224,7 @@ func checkIntact(tag, label string, rd reading, w []item) bool {
 				break
 			}
 		}
-		fail("readback:"+cls, len(w), label, map[string]any{"phase": tag, "log": label, "read": describe(rd.obs, w), "eof": rd.eof})
+		fail("readback:"+cls, len(w), label, map[string]any{"phase": tag, "log": label, "read": describe(rd.obs, w), "eof": rd.eof, "replay": spec})
 	}
 	return ok
 }
@@ -237,6 +241,7 @@ func runP1(c p1case) {
 	defer func() { dirPool <- d }()
 	cleanDir(d)
 	seq := buildSeq(c.syms, 1)
+	spec := map[string]any{"phase": "P1", "syms": c.syms, "rot": c.rot, "head_limit": c.headLimit, "sync_meta": c.syncMeta}
 	w := openWAL(d, c.headLimit)
 	enc := walm.NewWALWriter(w.Group(), walMax) // constructed exactly like baseWAL.enc; lets us fix the timestamp
 	rot := c.rot
@@ -255,7 +260,7 @@ func runP1(c p1case) {
 			err = enc.Write(it.twm)
 		}
 		if it.big != (err != nil) {
-			fail("write:size-limit-wrong", len(seq), c.syms, map[string]any{"log": c.syms, "item": i, "sized_len": len(it.sized), "max": walMax, "err": fmt.Sprint(err)})
+			fail("write:size-limit-wrong", len(seq), c.syms, map[string]any{"log": c.syms, "item": i, "sized_len": len(it.sized), "max": walMax, "err": fmt.Sprint(err), "replay": spec})
 		}
 		if c.headLimit > 0 {
 			if !it.big {
@@ -281,14 +286,14 @@ func runP1(c p1case) {
 	want := splitFiles(seq, 0, rot)
 	got, names := diskFiles(d)
 	if !sameFiles(got, want) {
-		fail("layout:files-differ-from-reference-encoding", len(seq), label, map[string]any{"log": label, "files": names, "sizes": fileSizes(got), "want_sizes": fileSizes(want)})
+		fail("layout:files-differ-from-reference-encoding", len(seq), label, map[string]any{"log": label, "files": names, "sizes": fileSizes(got), "want_sizes": fileSizes(want), "replay": spec})
 	}
 	wr := written(seq)
-	ok := checkIntact("P1", label, readGroup(w, false, len(seq)+4), wr)
+	ok := checkIntact("P1", label, readGroup(w, false, len(seq)+4), wr, spec)
 	closeWAL(w)
 	// a restarted node opens the group afresh
 	w2 := openWAL(d, 0)
-	ok = checkIntact("P1-reopen", label, readGroup(w2, false, len(seq)+4), wr) && ok
+	ok = checkIntact("P1-reopen", label, readGroup(w2, false, len(seq)+4), wr, spec) && ok
 	closeWAL(w2)
 	r.Eval()
 	if ok {
@@ -349,10 +354,10 @@ func phase1() {
 }
 
 // the baseWAL service path with real timestamps: Start (writes #0), Write, WriteSync, WriteMetaSync, Stop, reopen.
-func phase1Service() {
+func phase1Service(list []string) {
 	d := <-dirPool
 	defer func() { dirPool <- d }()
-	for _, syms := range []string{"V", "VTM", "PBMRVMT", "MMV"} {
+	for _, syms := range list {
 		cleanDir(d)
 		seq := buildSeq(syms, 1)
 		w := openWAL(d, 0)
@@ -398,7 +403,7 @@ func phase1Service() {
 		closeWAL(w2)
 		r.Eval()
 		if !ok {
-			fail("readback:service-path-differs", len(seq), syms, map[string]any{"log": "#0 " + syms})
+			fail("readback:service-path-differs", len(seq), syms, map[string]any{"log": "#0 " + syms, "replay": map[string]any{"phase": "P1svc", "syms": syms}})
 		} else {
 			r.Outcome("service_path_readback_ok")
 		}
@@ -410,6 +415,7 @@ func phase1Service() {
 
 type blog struct {
 	syms  string
+	rot   []int
 	seq   []item // written items only
 	label string
 	files [][]byte
@@ -420,7 +426,7 @@ type lineRef struct{ file, off int }
 
 func mkBlog(syms string, lead int, rot []int) blog {
 	seq := buildSeq(syms, 1)
-	b := blog{syms: syms, seq: written(seq), label: layoutLabel(seq, lead, rot), files: splitFiles(seq, lead, rot)}
+	b := blog{syms: syms, rot: rot, seq: written(seq), label: layoutLabel(seq, lead, rot), files: splitFiles(seq, lead, rot)}
 	f := lead
 	off := 0
 	for i, it := range seq {
@@ -533,7 +539,8 @@ func checkTrunc(b blog, how string, k int, rd reading) {
 	}
 	if key != "" {
 		fail(key, len(b.seq)*100000+k, fmt.Sprintf("%s cut@%d", b.label, k),
-			map[string]any{"log": b.label, "mode": how, "cut_at_byte": k, "complete_lines": lo, "read": describe(rd.obs, b.seq), "eof": rd.eof})
+			map[string]any{"log": b.label, "mode": how, "cut_at_byte": k, "complete_lines": lo, "read": describe(rd.obs, b.seq), "eof": rd.eof,
+				"replay": map[string]any{"phase": "P2", "syms": b.syms, "rot": b.rot, "cut": k}})
 		return
 	}
 	switch {
@@ -610,6 +617,47 @@ func phase2(logs []blog) {
 	})
 }
 
+// truncOne: cut the log after k bytes, in every representation (files: both variants at a file boundary).
+func truncOne(d string, b blog, k int) {
+	stream := b.concat()
+	checkTrunc(b, "stream", k, readStream(stream[:k], false, len(b.seq)+4))
+	before := 0
+	for j := range b.files {
+		if o := k - before; o >= 0 && o <= len(b.files[j]) {
+			var kept [][]byte
+			kept = append(kept, b.files[:j]...)
+			kept = append(kept, b.files[j][:o])
+			putFiles(d, kept, 0)
+			w := openWAL(d, 0)
+			rd := readGroup(w, false, len(b.seq)+4)
+			closeWAL(w)
+			checkTrunc(b, "files", k, rd)
+		}
+		before += len(b.files[j])
+	}
+}
+
+// substOne: substitute one byte of line c, in both representations.
+func substOne(d string, b blog, c, off int, v byte) {
+	ref := b.lines[c]
+	spos := ref.off
+	for x := 0; x < ref.file; x++ {
+		spos += len(b.files[x])
+	}
+	stream := b.concat()
+	stream[spos+off] = v
+	checkSubst(b, "stream", c, off, v, readStream(stream, true, len(b.seq)+8))
+	files := make([][]byte, len(b.files))
+	copy(files, b.files)
+	files[ref.file] = append([]byte(nil), b.files[ref.file]...)
+	files[ref.file][ref.off+off] = v
+	putFiles(d, files, 0)
+	w := openWAL(d, 0)
+	rd := readGroup(w, true, len(b.seq)+8)
+	closeWAL(w)
+	checkSubst(b, "files", c, off, v, rd)
+}
+
 func substValues(orig byte, all bool) []byte {
 	if all {
 		out := make([]byte, 0, 255)
@@ -639,7 +687,8 @@ func checkSubst(b blog, how string, c, off int, v byte, rd reading) {
 	nerr := len(rd.obs) - len(s)
 	wit := func() map[string]any {
 		return map[string]any{"log": b.label, "mode": how, "line": c, "line_kind": w[c].label, "offset_in_line": off,
-			"orig": fmt.Sprintf("%q", w[c].line[off]), "subst": fmt.Sprintf("%q", v), "read": describe(rd.obs, w), "eof": rd.eof}
+			"orig": fmt.Sprintf("%q", w[c].line[off]), "subst": fmt.Sprintf("%q", v), "read": describe(rd.obs, w), "eof": rd.eof,
+			"replay": map[string]any{"phase": "P3", "syms": b.syms, "rot": b.rot, "line": c, "off": off, "val": int(v)}}
 	}
 	size := len(w)*100000 + off
 	desc := fmt.Sprintf("%s line%d+%d=%q", b.label, c, off, v)
@@ -869,8 +918,8 @@ func runP4(c p4case) {
 			}
 		}
 		for oi, so := range searchOpts {
-			if oi >= 3 && !r.Thorough() {
-				break // IgnoreDataCorruptionErrors only matters on corrupted logs
+			if oi >= 3 && (!r.Thorough() || len(seq) > 4) {
+				break // IgnoreDataCorruptionErrors only matters on corrupted logs: small layouts in thorough only
 			}
 			var (
 				rd    io.ReadCloser
@@ -891,7 +940,8 @@ func runP4(c p4case) {
 			r.Eval()
 			wit := func() map[string]any {
 				return map[string]any{"layout": label, "files": len(files), "search_height": h, "options": so.name,
-					"found": found, "err": fmt.Sprint(err), "panic": fmt.Sprint(rec), "read_after": describe(got.obs, seq)}
+					"found": found, "err": fmt.Sprint(err), "panic": fmt.Sprint(rec), "read_after": describe(got.obs, seq),
+					"replay": map[string]any{"phase": "P4", "syms": c.syms, "lead": c.lead, "rot": c.rot, "base": c.base}}
 			}
 			desc := fmt.Sprintf("%s h=%d %s", label, h, so.name)
 			switch {
@@ -951,7 +1001,7 @@ func runP4(c p4case) {
 func phase4() {
 	n, maxFiles := 5, 5
 	if r.Thorough() {
-		n, maxFiles = 7, 6
+		n, maxFiles = 7, 5
 	}
 	var cases []p4case
 	for _, s := range allSeqs("mM", n) {
@@ -982,6 +1032,76 @@ func phase4() {
 
 // ---------------------------------------------------------------------------------------------
 
+func report() {
+	keys := make([]string, 0, len(vmap))
+	for k := range vmap {
+		keys = append(keys, k)
+	}
+	sort.Strings(keys)
+	for _, k := range keys {
+		w := vmap[k]
+		r.Violation(k, map[string]any{"minimal_witness": w.detail, "failing_cases": w.count})
+		fmt.Printf("  %s: %d failing cases; minimal: %s\n", k, w.count, w.desc)
+	}
+}
+
+// replay re-runs the minimal witness of a recorded violation on the real code (vcheck C38 replay <file>).
+func replay(path string) {
+	raw, err := os.ReadFile(path)
+	if err != nil {
+		r.HarnessError("replay: %v", err)
+	}
+	var doc struct {
+		Detail struct {
+			W struct {
+				Replay struct {
+					Phase     string `json:"phase"`
+					Syms      string `json:"syms"`
+					Lead      int    `json:"lead"`
+					Rot       []int  `json:"rot"`
+					Base      int    `json:"base"`
+					HeadLimit int64  `json:"head_limit"`
+					SyncMeta  bool   `json:"sync_meta"`
+					Cut       int    `json:"cut"`
+					Line      int    `json:"line"`
+					Off       int    `json:"off"`
+					Val       int    `json:"val"`
+				} `json:"replay"`
+			} `json:"minimal_witness"`
+		} `json:"detail"`
+	}
+	if err := json.Unmarshal(raw, &doc); err != nil {
+		r.HarnessError("replay: %v", err)
+	}
+	sp := doc.Detail.W.Replay
+	fmt.Printf("replaying %+v\n", sp)
+	switch sp.Phase {
+	case "P1":
+		runP1(p1case{syms: sp.Syms, rot: sp.Rot, headLimit: sp.HeadLimit, syncMeta: sp.SyncMeta})
+	case "P1svc":
+		phase1Service([]string{sp.Syms})
+	case "P2":
+		d := <-dirPool
+		truncOne(d, mkBlog(sp.Syms, 0, sp.Rot), sp.Cut)
+		dirPool <- d
+	case "P3":
+		d := <-dirPool
+		substOne(d, mkBlog(sp.Syms, 0, sp.Rot), sp.Line, sp.Off, byte(sp.Val))
+		dirPool <- d
+	case "P4":
+		runP4(p4case{syms: sp.Syms, lead: sp.Lead, rot: sp.Rot, base: sp.Base})
+	default:
+		r.HarnessError("replay: no replay spec in %s", path)
+	}
+	os.RemoveAll(workDir + "/run")
+	report()
+	if r.Violations() == 0 {
+		fmt.Println("replay: no violation reproduced")
+		os.Exit(0)
+	}
+	os.Exit(1)
+}
+
 func main() {
 	r = vk.New("fault_enumeration")
 	if pf := os.Getenv("C38_PPROF"); pf != "" {
@@ -995,6 +1115,10 @@ func main() {
 		mkSym('X', ord)
 		mkSym('Z', ord)
 	}
+	if r.ReplayIn != "" {
+		phaseDeadline = time.Now().Add(time.Hour)
+		replay(r.ReplayIn)
+	}
 	only := os.Getenv("C38_PHASES")
 	run := func(p string) bool { return only == "" || strings.Contains(only, p) }
 	logs := byteLogs()
@@ -1005,7 +1129,7 @@ func main() {
 	}
 	if run("1") {
 		setPhaseShare(0.40)
-		phase1Service()
+		phase1Service([]string{"V", "VTM", "PBMRVMT", "MMV"})
 		phase1()
 		fmt.Printf("P1 done at %.1fs evals=%d\n", time.Since(runStart).Seconds(), r.Evals())
 	}
@@ -1022,16 +1146,7 @@ func main() {
 	os.RemoveAll(workDir + "/run")
 	pprof.StopCPUProfile()
 
-	keys := make([]string, 0, len(vmap))
-	for k := range vmap {
-		keys = append(keys, k)
-	}
-	sort.Strings(keys)
-	for _, k := range keys {
-		w := vmap[k]
-		r.Violation(k, map[string]any{"minimal_witness": w.detail, "failing_cases": w.count})
-		fmt.Printf("  %s: %d failing cases; minimal: %s\n", k, w.count, w.desc)
-	}
+	report()
 	r.Assumptions = []string{
 		"reference model: list of written items + an independent encoder (base64-nopad(crc32c(amino sized bytes) || bytes) + newline, marker = #{\"h\":\"N\"}); amino itself is trusted",
 		"a crash is modelled as truncation of the byte stream at any byte (files after the cut absent; both 'head' and 'rotated + empty head' variants at file boundaries)",
